@@ -895,6 +895,12 @@ func (d *Director) AddNode(via *Actor, wl *Wallet, node *Actor) error {
 		d.checkLedger(led, op, new(big.Int), "a refused request")
 		return err
 	}
+	if err != nil && strings.Contains(err.Error(), "injected I/O error") {
+		// the one storage error of the run: the store refused the call before doing anything, the link was not made
+		// (the model must not make it either)
+		d.checkLedger(led, op, new(big.Int), "a refused request")
+		return err
+	}
 	merr := w.Ref.AddAccountNode(store.Account(wl.Addr), store.NodeID(node.ID))
 	if (err == nil) != (merr == nil) {
 		d.bad("C12", "state", "account linking outcome differs from the model", "%s: got %v, model %v", op, err, merr)
